@@ -52,7 +52,7 @@ func (a Attack) String() string {
 
 var forgeries = []string{"flag-cleared-trailer-kept", "flag-cleared-no-trailer", "authcode-empty", "authcode-short", "authcode-random", "authcode-k2", "authcode-sik", "authcode-zero-key",
 	"authcode-other-session", "authcode-range-skips-first-byte", "authcode-range-includes-rmcp", "authcode-range-excludes-trailer", "wrong-session-id", "plaintext-unsigned",
-	"plaintext-unsigned-wrong-id", "flag-set-no-trailer", "flag-set-ff-only", "plaintext-flag-set-no-trailer", "plaintext-flag-set-ff-only", "pad-bytes-wrong", "pad-length-large", "pad-longer-than-data",
+	"plaintext-unsigned-wrong-id", "flag-set-no-trailer", "flag-set-ff-only", "plaintext-flag-set-no-trailer", "plaintext-flag-set-ff-only", "pad-bytes-wrong", "pad-length-large", "pad-longer-than-data", "pad-overlong",
 	"addressed-to-bmc-session-id", "addressed-to-null-session", "addressed-to-byteswapped-id",
 	"pad-two-bytes-swapped", "pad-reversed", "pad-zero-filled", "pad-same-bit-in-two-bytes",
 	"authcode-zero-tail-cut", "authcode-zero-appended"}
@@ -229,10 +229,21 @@ func attackDatagram(a Attack, R []byte, s *simbmc.Session, b *simbmc.BMC, other 
 		}
 		pt := append(append(append([]byte(nil), forged...), pad...), byte(n))
 		p.payload = ref.AESEncryptRaw(s.K2, iv, pt)
-	case "pad-bytes-wrong", "pad-length-large", "pad-longer-than-data":
+	case "pad-bytes-wrong", "pad-length-large", "pad-longer-than-data", "pad-overlong":
 		n := 15 - len(forged)%16
 		pt := append([]byte(nil), forged...)
 		switch a.Forge {
+		case "pad-overlong":
+			// a pad that is consistent in itself (01, 02, ... n, then n) but one or
+			// two whole blocks longer than alignment can ever need: 17..47 bytes
+			n += 16 * (1 + a.Param%2)
+			if n == 16 {
+				n = 32
+			}
+			for i := 1; i <= n; i++ {
+				pt = append(pt, byte(i))
+			}
+			pt = append(pt, byte(n))
 		case "pad-bytes-wrong":
 			if n == 0 {
 				n = 16 // make room for at least one pad byte
